@@ -16,46 +16,57 @@
 (* only while it still is the waiter it found.                                *)
 (***************************************************************************)
 EXTENDS Naturals, TLC
-CONSTANTS PopFirst, Dup, PopByIdentity
+CONSTANTS PopFirst, Dup, PopByIdentity,
+          AtomicPop      \* the identity test and the removal are one step (they are made under the registry lock); FALSE: two steps
+                         \* (the tree between F-C14-pop-by-key and F-C14-test-then-pop: the caller may re-register in between)
 Rounds == {1, 2}
 Disp == IF Dup THEN {1, 2, 3} ELSE {1, 2}          \* dispatcher 3 handles the repeated copy of answer 1
 RoundOf(d) == IF d = 3 THEN 1 ELSE d
-VARIABLES cpc, round,      \* the caller and the transmission it is in
+VARIABLES mine,            \* (AtomicPop = FALSE) what the identity test of each dispatcher saw
+          cpc, round,      \* the caller and the transmission it is in
           reg,             \* which transmission's waiter is registered under the key (0: none)
           sent,            \* transmissions that reached the peer
           recvEv, stopEv,  \* the two events of each waiter object
           dpc, obj,        \* dispatcher of each answer: pc and the waiter object it found
           returned         \* number of calls that returned their answer
-vars == <<cpc, round, reg, sent, recvEv, stopEv, dpc, obj, returned>>
-Init == /\ cpc = "reg" /\ round = 1 /\ reg = 0 /\ sent = {} /\ recvEv = [r \in Rounds |-> FALSE] /\ stopEv = [r \in Rounds |-> FALSE]
+vars == <<mine, cpc, round, reg, sent, recvEv, stopEv, dpc, obj, returned>>
+Init == /\ mine = [r \in Disp |-> FALSE] /\ cpc = "reg" /\ round = 1 /\ reg = 0 /\ sent = {} /\ recvEv = [r \in Rounds |-> FALSE] /\ stopEv = [r \in Rounds |-> FALSE]
         /\ dpc = [r \in Disp |-> "idle"] /\ obj = [r \in Disp |-> 0] /\ returned = 0
 \* caller: register, queue, wait, clear, acknowledge, return; then once more
-Reg == cpc = "reg" /\ reg' = round /\ cpc' = "enq" /\ UNCHANGED <<round, sent, recvEv, stopEv, dpc, obj, returned>>
-Enq == cpc = "enq" /\ sent' = sent \cup {round} /\ cpc' = "wait" /\ UNCHANGED <<round, reg, recvEv, stopEv, dpc, obj, returned>>
-Wake == cpc = "wait" /\ recvEv[round] /\ recvEv' = [recvEv EXCEPT ![round] = FALSE] /\ cpc' = "ack" /\ UNCHANGED <<round, reg, sent, stopEv, dpc, obj, returned>>
-Ack == cpc = "ack" /\ stopEv' = [stopEv EXCEPT ![round] = TRUE] /\ cpc' = "ret" /\ UNCHANGED <<round, reg, sent, recvEv, dpc, obj, returned>>
+Reg == cpc = "reg" /\ reg' = round /\ cpc' = "enq" /\ UNCHANGED <<mine, round, sent, recvEv, stopEv, dpc, obj, returned>>
+Enq == cpc = "enq" /\ sent' = sent \cup {round} /\ cpc' = "wait" /\ UNCHANGED <<mine, round, reg, recvEv, stopEv, dpc, obj, returned>>
+Wake == cpc = "wait" /\ recvEv[round] /\ recvEv' = [recvEv EXCEPT ![round] = FALSE] /\ cpc' = "ack" /\ UNCHANGED <<mine, round, reg, sent, stopEv, dpc, obj, returned>>
+Ack == cpc = "ack" /\ stopEv' = [stopEv EXCEPT ![round] = TRUE] /\ cpc' = "ret" /\ UNCHANGED <<mine, round, reg, sent, recvEv, dpc, obj, returned>>
 Ret == /\ cpc = "ret" /\ returned' = returned + 1
        /\ IF round = 1 THEN round' = 2 /\ cpc' = "reg" ELSE cpc' = "done" /\ UNCHANGED round
-       /\ UNCHANGED <<reg, sent, recvEv, stopEv, dpc, obj>>
+       /\ UNCHANGED <<mine, reg, sent, recvEv, stopEv, dpc, obj>>
 \* dispatcher of the answer to transmission r
-Arrive(r) == RoundOf(r) \in sent /\ dpc[r] = "idle" /\ dpc' = [dpc EXCEPT ![r] = "check"] /\ UNCHANGED <<cpc, round, reg, sent, recvEv, stopEv, obj, returned>>
+Arrive(r) == RoundOf(r) \in sent /\ dpc[r] = "idle" /\ dpc' = [dpc EXCEPT ![r] = "check"] /\ UNCHANGED <<mine, cpc, round, reg, sent, recvEv, stopEv, obj, returned>>
 Check(r) == /\ dpc[r] = "check" /\ obj' = [obj EXCEPT ![r] = reg]
             /\ dpc' = [dpc EXCEPT ![r] = IF reg = 0 THEN "dropped" ELSE IF PopFirst THEN "pop" ELSE "notify"]
-            /\ UNCHANGED <<cpc, round, reg, sent, recvEv, stopEv, returned>>
-Pop(r) == dpc[r] = "pop" /\ reg' = (IF PopByIdentity /\ reg # obj[r] THEN reg ELSE 0) /\ dpc' = [dpc EXCEPT ![r] = IF PopFirst THEN "notify" ELSE "end"]      \* by key: whatever is registered
+            /\ UNCHANGED <<mine, cpc, round, reg, sent, recvEv, stopEv, returned>>
+Pop(r) == /\ dpc[r] = "pop"
+          /\ IF AtomicPop \/ ~PopByIdentity
+               THEN /\ reg' = (IF PopByIdentity /\ reg # obj[r] THEN reg ELSE 0)      \* by key: whatever is registered
+                    /\ dpc' = [dpc EXCEPT ![r] = IF PopFirst THEN "notify" ELSE "end"] /\ mine' = mine
+               ELSE /\ mine' = [mine EXCEPT ![r] = (reg = obj[r])] /\ dpc' = [dpc EXCEPT ![r] = "pop2"] /\ reg' = reg
           /\ UNCHANGED <<cpc, round, sent, recvEv, stopEv, obj, returned>>
+Pop2(r) == /\ dpc[r] = "pop2"
+           /\ reg' = (IF mine[r] THEN 0 ELSE reg)
+           /\ dpc' = [dpc EXCEPT ![r] = IF PopFirst THEN "notify" ELSE "end"]
+           /\ UNCHANGED <<mine, cpc, round, sent, recvEv, stopEv, obj, returned>>
 Notify(r) == dpc[r] = "notify" /\ recvEv' = [recvEv EXCEPT ![obj[r]] = TRUE] /\ dpc' = [dpc EXCEPT ![r] = "waitstop"]
-             /\ UNCHANGED <<cpc, round, reg, sent, stopEv, obj, returned>>
+             /\ UNCHANGED <<mine, cpc, round, reg, sent, stopEv, obj, returned>>
 WaitStop(r) == dpc[r] = "waitstop" /\ stopEv[obj[r]] /\ dpc' = [dpc EXCEPT ![r] = IF PopFirst THEN "end" ELSE "pop"]
-               /\ UNCHANGED <<cpc, round, reg, sent, recvEv, stopEv, obj, returned>>
+               /\ UNCHANGED <<mine, cpc, round, reg, sent, recvEv, stopEv, obj, returned>>
 Done == cpc = "done" /\ UNCHANGED vars
-Next == Reg \/ Enq \/ Wake \/ Ack \/ Ret \/ Done \/ \E r \in Disp : Arrive(r) \/ Check(r) \/ Pop(r) \/ Notify(r) \/ WaitStop(r)
+Next == Reg \/ Enq \/ Wake \/ Ack \/ Ret \/ Done \/ \E r \in Disp : Arrive(r) \/ Check(r) \/ Pop(r) \/ Pop2(r) \/ Notify(r) \/ WaitStop(r)
 Spec == Init /\ [][Next]_vars /\ WF_vars(Next)
 \* an answer finds its waiter: no dispatcher drops an answer while the caller of that transmission is (or will be) waiting for it
 \* (an answer may be dropped when another answer under the same key - its repeated copy, or a late copy of the first answer
 \* that is indistinguishable from the answer to the retransmission - has taken the waiter it was for)
 NoLostWake == \A r \in Disp : dpc[r] = "dropped" =>
                  \/ round > RoundOf(r) \/ cpc = "done"
-                 \/ \E e \in Disp \ {r} : obj[e] = RoundOf(r) /\ dpc[e] \in {"pop", "notify", "waitstop", "end"}
+                 \/ \E e \in Disp \ {r} : obj[e] = RoundOf(r) /\ dpc[e] \in {"pop", "pop2", "notify", "waitstop", "end"}
 BothReturn == <>(cpc = "done" /\ returned = 2)
 =============================================================================
